@@ -107,7 +107,10 @@ Laws(c) ==
                   ELSE IF c.fn = "heat" THEN Bad1(c, LAMBDA i, j : HeatAnchorOK(c, i, j), "heat-value-differs-from-kernel-formula")
                   ELSE IF c.fn = "sw" THEN Bad1(c, LAMBDA i, j : SWAnchorOK(c, i, j), "sliced-value-differs-from-1d-transport")
                   ELSE <<"ok", 0, 0, 0>>
-      all == <<finite, nonneg, ident, symm, empty, anchor, cmp, diagpts, trans, scal, tri>>
+      \* SF: the same calls with the bandwidth handed over as a float (V used a Python int): the value must not depend on the number type of sigma
+      sigtype  == IF c.SF = <<>> THEN <<"ok", 0, 0, 0>>
+                  ELSE Bad1(c, LAMBDA i, j : c.SF[i][j][1] = 1 /\ FCloseRel(Val(c, i, j), c.SF[i][j][2], E12, E9), "value-depends-on-the-number-type-of-sigma")
+      all == <<finite, nonneg, ident, symm, empty, anchor, sigtype, cmp, diagpts, trans, scal, tri>>
       bad == {q \in 1..Len(all) : all[q][1] # "ok"}
   IN IF finite[1] # "ok" THEN finite ELSE IF bad = {} THEN <<"ok", 0, 0, 0>> ELSE all[Min(bad)]
 Verdict(c) == LET r == Laws(c) IN IF r[1] = "ok" THEN <<"ok", "", 0, 0, 0>> ELSE <<"fail", r[1], r[2], r[3], r[4]>>
